@@ -159,10 +159,7 @@ func (interp *Interpreter) Execute(p *Program) (res reflect.Value, err error) {
 	}
 
 	// Init interpreter execution memory frame.
-	interp.frame.setrunid(interp.runid())
-	// When the evaluation has returned, a cancelled one included, the function values
-	// which it has defined can be called by the host.
-	defer func() { interp.frame.setrunid(interp.runid()) }()
+	defer interp.end(interp.begin())
 	interp.frame.mutex.Lock()
 	interp.resizeFrame()
 	interp.frame.mutex.Unlock()
@@ -186,7 +183,7 @@ func (interp *Interpreter) Execute(p *Program) (res reflect.Value, err error) {
 	// If result is an interpreter node, wrap it in a runtime callable function.
 	if res.IsValid() {
 		if n, ok := res.Interface().(*node); ok {
-			res = genFunctionWrapper(n)(interp.frame)
+			res = genHostFunctionWrapper(n)(interp.frame)
 		}
 	}
 
